@@ -1,6 +1,7 @@
 import shutil
 import sys
 
+from conductor.config import VERSION_INDEX_NAME
 from conductor.context import Context
 from conductor.utils.user_code import cli_command
 
@@ -38,4 +39,7 @@ def main(args):
             print("Aborting!")
             sys.exit(1)
 
+    # Remove the version index first. If this operation is interrupted partway,
+    # no recorded version may be left behind without its output directory.
+    (ctx.output_path / VERSION_INDEX_NAME).unlink(missing_ok=True)
     shutil.rmtree(ctx.output_path, ignore_errors=True)
